@@ -317,7 +317,7 @@ func (e *Engine) specCall(env *SpecEnv, x *SExpr) Value {
 		if v.Sort.K == KF64 {
 			return v
 		}
-		return T("(i2f "+v.S+")", SF64)
+		return i2fTerm(v)
 	case "bits":
 		need(1)
 		return e.f64bits(env.st, e.evalSpecTerm(env, args[0]))
@@ -357,6 +357,27 @@ func (e *Engine) specCall(env *SpecEnv, x *SExpr) Value {
 			sfail("seen(k): no map iterator in scope")
 		}
 		return Select(s, k)
+	case "seencount":
+		// number of keys the map iterator of loop n (default: the current loop) has yielded
+		if env.st == nil {
+			sfail("seencount outside of a loop invariant")
+		}
+		ln := -1
+		if len(args) == 1 {
+			n, ok := isIntLit(e.evalSpecTerm(env, args[0]))
+			if !ok {
+				sfail("seencount(n) needs a literal loop ordinal")
+			}
+			ln = int(n)
+		} else if lv, ok := env.vars["$loop"]; ok {
+			n, _ := isIntLit(lv.(Term))
+			ln = int(n)
+		}
+		c, ok := e.iterCountOfLoop(env, ln)
+		if !ok {
+			sfail("seencount: no map iterator in scope")
+		}
+		return c
 	case "seenOf":
 		need(2)
 		n, ok := isIntLit(e.evalSpecTerm(env, args[0]))
@@ -469,7 +490,7 @@ func (e *Engine) specCall(env *SpecEnv, x *SExpr) Value {
 		v := e.evalSpec(env, args[0])
 		if t, ok := v.(Term); ok {
 			if isFloat(tv.T) && t.Sort.K == KInt {
-				return T("(i2f "+t.S+")", SF64)
+				return i2fTerm(t)
 			}
 			return t
 		}
